@@ -8,3 +8,5 @@ import TlxVerif.Props.C02
 #print axioms TlxVerif.C02.lifetime_balance
 #print axioms TlxVerif.C02.erase_shape_ledger
 #print axioms TlxVerif.C02.inv_erase_one_partial
+#print axioms TlxVerif.C02.inv_erase
+#print axioms TlxVerif.C02.inv_all_histories
